@@ -1039,6 +1039,19 @@ def check_C13(A: Analysis, tier):
                         if absent and left:
                             rc.fail(fn, rn_, "after a failed move (nothing at the permanent address) the handler gives up here while the temp file can "
                                     "still be there: a failed store leaks a file in the tmp directory", A.p.loc(fn, rn_))
+    # the publishing move itself sits inside the try whose handler cleans up (a move placed behind / outside it fails without clean-up)
+    for e, dest_cls in (("store_object", "OBJ"), ("store_metadata", "META")):
+        it_p = A.api(e, "th")
+        for ev in it_p.events:
+            if ev.kind == "RENAME" and any(c.cls == dest_cls for c in primary(ev.classes[1])) and any(c.cls == "TMP" for c in primary(ev.classes[0])):
+                rc.ob()
+                rc.inst(f"{e}: publishing move at {ev.func.qual}:{ev.line}")
+                guarded = any(in_body(nd_, t.body) and any(os_capable(h_) for h_ in t.handlers)
+                              for (fn_, nd_) in ev.extra.get("callchain", [(ev.func, ev.node)]) if fn_.qual not in (Q("store_object"), Q("store_metadata"))
+                              for t in enclosing(nd_, ast.Try))
+                if not guarded:
+                    rc.fail(ev.func, ev.node, "the move that publishes the temp file is not inside a try whose handler can catch its failure: a failed move "
+                            "leaves the temp file behind (and, for objects, skips the check of what is at the permanent address)", A.p.loc(ev.func, ev.node))
     it = A.run(Q("_write_to_tmp_file_and_get_hex_digests"), "th")
     for k, l, st, rv in it.exits:
         rc.ob()
